@@ -1,7 +1,184 @@
+(* C09: the fill identifier of _get_next_nn_id cycles through 1 .. 126; top-level statements assembled
+   from Proofs/Load*.v. *)
 From Coq Require Import ZArith List Bool Lia.
-Require Import Rig.Generated.GenLoad Rig.Model.Base Rig.Model.Load Rig.Spec.Load.
+Require Import Rig.Generated.GenLoad Rig.Model.Base Rig.Model.Regions Rig.Spec.Regions Rig.Model.Load Rig.Spec.Load.
+Require Import Rig.Proofs.LoadMachine Rig.Proofs.LoadCtrl Rig.Proofs.LoadFill Rig.Proofs.LoadLoop Rig.Proofs.LoadWitness.
 Import ListNotations.
 Open Scope Z_scope.
 
-Lemma next_nn_id_range : forall v, 0 <= v <= 126 -> 1 <= next_nn_id v <= 126.
-Proof. intros v H. unfold next_nn_id. destruct (v <? 126) eqn:E; lia. Qed.
+Ltac Zify.zify_post_hook ::= Z.to_euclidean_division_equations.
+
+Lemma next_nn_id_closed : forall x, 1 <= x <= 126 -> next_nn_id x = x mod 126 + 1.
+Proof. intros x Hx. unfold next_nn_id. destruct (x <? 126) eqn:E; lia. Qed.
+
+Lemma nn_iter_closed : forall k v, 1 <= v <= 126 -> nn_iter k v = (v - 1 + Z.of_nat k) mod 126 + 1.
+Proof.
+  induction k as [|k IH]; intros v Hv.
+  - cbn [nn_iter]. lia.
+  - cbn [nn_iter]. rewrite IH by exact Hv. rewrite next_nn_id_closed by lia.
+    rewrite Nat2Z.inj_succ. lia.
+Qed.
+
+(* the ids of successive fills: 1 .. 126 in turn, each sent doubled (2 .. 252, a byte), the same id only
+   every 126 fills; a new controller starts with 1 *)
+Theorem nn_id_cycle : forall v, 1 <= v <= 126 ->
+  (forall k, 1 <= nn_iter k v <= 126 /\ 2 <= nn_id_wire (nn_iter k v) <= 252
+             /\ nn_id_wire (nn_iter k v) mod 2 = 0)
+  /\ (forall k, nn_iter k v = v <-> (Z.of_nat k) mod 126 = 0)
+  /\ next_nn_id v <> v
+  /\ next_nn_id nn_id_init = 1.
+Proof.
+  intros v Hv. split; [|split; [|split]].
+  - intros k. rewrite nn_iter_closed by exact Hv. unfold nn_id_wire. lia.
+  - intros k. rewrite nn_iter_closed by exact Hv. lia.
+  - rewrite next_nn_id_closed by exact Hv. lia.
+  - reflexivity.
+Qed.
+
+(* what one fill keeps *)
+Lemma fill_one_keeps : forall c w aid wait data ts c1 w1,
+  ctrl_wf c (w_m w) -> machine_wf (w_m w) -> binary_ok (m_buffer (w_m w)) data -> 0 <= aid < 256 ->
+  fill_one c w aid (ff_flags wait) data ts = Ok (c1, w1) ->
+  machine_wf (w_m w1) /\ ctrl_wf c1 (w_m w1) /\ same_static (w_m w) (w_m w1)
+  /\ c_nn c1 = next_nn_id (c_nn c).
+Proof.
+  intros c w aid wait data ts c1 w1 Hc Hm Hbin Haid Hf.
+  assert (Hfl : 0 <= ff_flags wait < 64) by (destruct wait; vm_compute; split; congruence).
+  pose proof (fill_one_effect c w aid (ff_flags wait) data ts c1 w1 Hc Hm Hbin Haid Hfl Hf)
+    as (E1 & E2 & E3 & E4 & E5 & E6).
+  split; [|split; [|split; [exact E2|exact E5]]].
+  - apply (machine_wf_kept (w_m w) (w_m w1) (ff_flags wait) aid Hm E2 E3 Haid).
+    intros [[x y] p] s' Hs. rewrite E4 in Hs. destruct (core_at (w_m w) (x, y, p)) as [old|]; [|discriminate].
+    cbn [option_map] in Hs. inversion Hs.
+    destruct (negb (chip_mem (x, y) (hd [] (m_sched (w_m w)))) && requested (cores_of_targets ts) x y p);
+      [right; exists data; reflexivity|left; reflexivity].
+  - destruct E2 as (Sa & _). split; [rewrite E5; pose proof (next_nn_id_range (c_nn c) (proj1 Hc)); lia|].
+    right. rewrite E6, Sa. reflexivity.
+Qed.
+
+Lemma bins_ok_nth : forall buffer bins b data,
+  bins_ok buffer bins -> nth_error bins b = Some data -> binary_ok buffer data.
+Proof.
+  intros buffer bins b data H E. unfold bins_ok in H. rewrite Forall_forall in H. apply H.
+  eapply nth_error_In. exact E.
+Qed.
+
+(* the controller's id after a flood fill of a whole map: one step per binary *)
+Lemma flood_fill_aplx_nn : forall bins am aid wait c w c' w',
+  ctrl_wf c (w_m w) -> machine_wf (w_m w) -> bins_ok (m_buffer (w_m w)) bins -> 0 <= aid < 256 ->
+  flood_fill_aplx bins c w am aid wait = Ok (c', w') ->
+  c_nn c' = nn_iter (length am) (c_nn c).
+Proof.
+  intros bins am. induction am as [|[b ts] r IH]; intros aid wait c w c' w' Hc Hm Hbins Haid H.
+  - cbn [flood_fill_aplx] in H. inversion H; subst. reflexivity.
+  - cbn [flood_fill_aplx] in H. destruct (nth_error bins (Z.to_nat b)) as [data|] eqn:Eb; [|discriminate].
+    apply bind_ok in H. destruct H as [[c1 w1] [Hf H]]. cbn [fst snd] in H.
+    pose proof (bins_ok_nth _ _ _ _ Hbins Eb) as Hbin.
+    destruct (fill_one_keeps c w aid wait data ts c1 w1 Hc Hm Hbin Haid Hf) as (Hm1 & Hc1 & (Sa & _) & Hn).
+    rewrite (IH aid wait c1 w1 c' w' Hc1 Hm1 ltac:(rewrite Sa; exact Hbins) Haid H). rewrite Hn.
+    cbn [length]. clear. induction (length r) as [|n IHn]; [reflexivity|]. cbn [nn_iter] in *. rewrite IHn. reflexivity.
+Qed.
+
+(* ---------------------------------------------------------------- the packets of a whole flood fill *)
+Lemma ffcs_of_parts : forall buffer base data ffs sels rd ds ffe,
+  ff_parts buffer base data ffs sels rd ds ffe ->
+  ffcs_of ([ffs] ++ sels ++ [rd] ++ ds ++ [ffe]) = sels.
+Proof.
+  intros buffer base data ffs sels rd ds ffe (P1 & P2 & P3 & P4 & _ & P6 & _).
+  unfold ffcs_of. rewrite !filter_app.
+  assert (H1 : filter is_ffcs_b [ffs] = []).
+  { cbn [filter]. unfold is_ffcs_b. destruct P1 as [_ ->]. rewrite andb_false_r. reflexivity. }
+  assert (H2 : filter is_ffcs_b sels = sels).
+  { clear -P2. induction sels as [|q sels IH]; [reflexivity|]. inversion P2 as [|? ? [Hc Ho] Hr]; subst.
+    cbn [filter]. unfold is_ffcs_b at 1. rewrite Hc, Ho, !Z.eqb_refl. cbn [andb]. rewrite IH by exact Hr. reflexivity. }
+  assert (H3 : filter is_ffcs_b [rd] = []).
+  { cbn [filter]. unfold is_ffcs_b. unfold is_read in P3. rewrite P3. reflexivity. }
+  assert (H4 : forall pid block addr, blocks_ok buffer pid block addr ds -> filter is_ffcs_b ds = []).
+  { clear. induction ds as [|q ds IH]; intros pid block addr H; [reflexivity|]. cbn [blocks_ok] in H.
+    destruct H as (Hf & _ & _ & _ & _ & _ & Hr). cbn [filter]. unfold is_ffcs_b at 1. unfold is_ffd in Hf. rewrite Hf.
+    cbn [Z.eqb Pos.eqb andb]. apply (IH _ _ _ Hr). }
+  assert (H5 : filter is_ffcs_b [ffe] = []).
+  { cbn [filter]. unfold is_ffcs_b. destruct P4 as [_ ->]. rewrite andb_false_r. reflexivity. }
+  rewrite H1, H2, H3, (H4 _ _ _ P6), H5. cbn [app]. apply app_nil_r.
+Qed.
+
+Theorem flood_fill_aplx_fills : forall bins am aid wait c w c' w',
+  ctrl_wf c (w_m w) -> machine_wf (w_m w) -> bins_ok (m_buffer (w_m w)) bins -> 0 <= aid < 256 ->
+  flood_fill_aplx bins c w am aid wait = Ok (c', w') ->
+  exists ps, sent w' = sent w ++ ps /\ fills_ok (m_buffer (w_m w)) (m_base (w_m w)) bins am ps.
+Proof.
+  intros bins am. induction am as [|[b ts] r IH]; intros aid wait c w c' w' Hc Hm Hbins Haid H.
+  - cbn [flood_fill_aplx] in H. inversion H; subst. exists []. split; [rewrite app_nil_r; reflexivity|reflexivity].
+  - cbn [flood_fill_aplx] in H. destruct (nth_error bins (Z.to_nat b)) as [data|] eqn:Eb; [|discriminate].
+    apply bind_ok in H. destruct H as [[c1 w1] [Hf H]]. cbn [fst snd] in H.
+    pose proof (bins_ok_nth _ _ _ _ Hbins Eb) as Hbin.
+    destruct (fill_one_keeps c w aid wait data ts c1 w1 Hc Hm Hbin Haid Hf) as (Hm1 & Hc1 & (Sa & Sb & _) & _).
+    destruct (fill_one_wellformed c w aid (ff_flags wait) data ts c1 w1 Hc Hm Hbin Hf)
+      as (ffs & sels & rd & ds & ffe & Hsent & Hparts & Hsel & _).
+    destruct (IH aid wait c1 w1 c' w' Hc1 Hm1 ltac:(rewrite Sa; exact Hbins) Haid H) as (rest & Hsent2 & Hrest).
+    exists (pre_of c ++ ([ffs] ++ sels ++ [rd] ++ ds ++ [ffe]) ++ rest). split.
+    + rewrite Hsent2, Hsent. rewrite <- !app_assoc. reflexivity.
+    + cbn [fills_ok]. exists data, (pre_of c), ([ffs] ++ sels ++ [rd] ++ ds ++ [ffe]), rest.
+      split; [exact Eb|]. split.
+      { unfold pre_of. destruct (c_buffer c); [left; reflexivity|right; exists sver_pkt; split; reflexivity]. }
+      split; [reflexivity|]. split; [exists ffs, sels, rd, ds, ffe; split; [reflexivity|exact Hparts]|].
+      split; [intros x y p; rewrite (ffcs_of_parts _ _ _ _ _ _ _ _ Hparts); apply Hsel|].
+      rewrite <- Sa, <- Sb. exact Hrest.
+Qed.
+
+(* ---------------------------------------------------------------- the two refuted regions *)
+Lemma load_count_mode_refuted :
+  exists bins c w am a c' w' atts b core,
+    machine_wf (w_m w) /\ ctrl_wf c (w_m w) /\ map_wf am /\ bins_ok (m_buffer (w_m w)) bins
+    /\ 0 <= a_app a < 256 /\ no_requested_waiting (w_m w) am /\ a_count a = true
+    /\ load_application bins c w am a = Ok (c', w', Returned, atts)
+    /\ In (b, core) (named am)
+    /\ ~ holds bins (w_m w') (a_app a) (if a_wait a then STATE_WAIT else STATE_RUN) b core.
+Proof.
+  destruct count_mode_witness as (c' & w' & atts & Hrun & Hat & Hin).
+  destruct count_mode_witness_guards as (G1 & G2 & G3 & G4 & G5 & G6 & _).
+  exists ex_bins, ctrl_init, (mkWorld k3_machine []), k3_map, (default_args 30), c', w', atts, 1, (1, 0, 3).
+  cbn [w_m]. repeat (split; [assumption || (cbn; lia)|]).
+  intros [data [_ H]]. rewrite Hat in H. discriminate.
+Qed.
+
+Lemma load_requested_waiting_refuted :
+  exists bins c w am a c' w' atts b core,
+    machine_wf (w_m w) /\ ctrl_wf c (w_m w) /\ map_wf am /\ bins_ok (m_buffer (w_m w)) bins
+    /\ 0 <= a_app a < 256 /\ a_count a = false
+    /\ load_application bins c w am a = Ok (c', w', Returned, atts)
+    /\ In (b, core) (named am)
+    /\ ~ holds bins (w_m w') (a_app a) (if a_wait a then STATE_WAIT else STATE_RUN) b core.
+Proof.
+  destruct state_mode_witness as (c' & w' & atts & Hrun & Hat & Hin).
+  destruct state_mode_witness_guards as (G1 & G2 & G3 & G4 & G5 & _).
+  exists ex_bins, ctrl_init, (mkWorld stale_machine []), k3_map, (state_args 30), c', w', atts, 1, (1, 0, 3).
+  cbn [w_m]. repeat (split; [assumption || (cbn; lia)|]).
+  intros [data [Hb H]]. rewrite Hat in H. vm_compute in Hb. inversion Hb; subst data. discriminate.
+Qed.
+
+(* state mode: the guard about other cores is not needed *)
+Corollary load_state_mode : forall bins c w am a c' w' out atts,
+  machine_wf (w_m w) -> ctrl_wf c (w_m w) -> map_wf am -> bins_ok (m_buffer (w_m w)) bins ->
+  0 <= a_app a < 256 -> no_requested_waiting (w_m w) am -> a_count a = false ->
+  load_application bins c w am a = Ok (c', w', out, atts) ->
+  match out with
+  | Returned =>
+      (forall b c0, In (b, c0) (named am) ->
+         holds bins (w_m w') (a_app a) (if a_wait a then STATE_WAIT else STATE_RUN) b c0)
+      /\ (forall c0, ~ In c0 (map snd (named am)) ->
+            core_at (w_m w') c0 =
+            option_map (fun s => if a_wait a then s else start_core 255 (a_app a) s) (core_at (w_m w) c0))
+  | LoadingError unl =>
+      incl (named unl) (named am)
+      /\ (forall b c0, In (b, c0) (named am) ->
+            (In (b, c0) (named unl) <-> ~ holds bins (w_m w') (a_app a) STATE_WAIT b c0))
+      /\ (forall c0, ~ In c0 (map snd (named am)) -> core_at (w_m w') c0 = core_at (w_m w) c0)
+  end
+  /\ Z.of_nat (length atts) <= Z.max 0 (a_tries a + 1)
+  /\ Forall (att_ok bins (a_app a) am) atts.
+Proof.
+  intros bins c w am a c' w' out atts Hwf Hc Hmap Hbins Haid Hreq Hcnt H.
+  apply (load_application_spec bins c w am a c' w' out atts Hwf Hc Hmap Hbins Haid Hreq); [|exact H].
+  rewrite Hcnt. discriminate.
+Qed.
